@@ -93,6 +93,24 @@ type PlainProbe struct {
 	rt               controller.Runtime
 	active           int
 	ResetBackoffOnOK bool
+	// ErrKind selects what a scripted "err" outcome returns: 0 a plain error, 1 an error wrapping context.Canceled,
+	// 2 an error wrapping context.DeadlineExceeded (as when an operation under a component's own sub-context gives
+	// up) - in every case while the component's context is still alive.
+	ErrKind int
+}
+
+// ScriptedErr builds the error of a scripted failure (see ErrKind).
+func ScriptedErr(kind int, msg string) error { return scriptedErr(kind, msg) }
+
+func scriptedErr(kind int, msg string) error {
+	switch kind {
+	case 1:
+		return fmt.Errorf("%s: %w (sub-operation gave up: %w)", msg, ErrScripted, context.Canceled)
+	case 2:
+		return fmt.Errorf("%s: %w (sub-operation gave up: %w)", msg, ErrScripted, context.DeadlineExceeded)
+	}
+
+	return fmt.Errorf("%s: %w", msg, ErrScripted)
 }
 
 var _ controller.Controller = (*PlainProbe)(nil)
@@ -292,7 +310,7 @@ func (p *PlainProbe) Run(ctx context.Context, r controller.Runtime, _ *zap.Logge
 
 		switch o.Out {
 		case "err":
-			return fmt.Errorf("probe %s: scripted failure #%d", p.NameStr, n)
+			return scriptedErr(p.ErrKind, fmt.Sprintf("probe %s: scripted failure #%d", p.NameStr, n))
 		case "panic":
 			panic(fmt.Sprintf("probe %s: scripted panic #%d", p.NameStr, n))
 		default:
@@ -329,6 +347,8 @@ type QProbe struct {
 	nhook     int
 	inflight  map[model.Key]int
 	Overlaps  []string
+	// ErrKind: see PlainProbe.ErrKind.
+	ErrKind int
 }
 
 var _ controller.QController = (*QProbe)(nil)
@@ -371,7 +391,7 @@ func (q *QProbe) Settings() controller.QSettings {
 
 			switch q.HookOut.at(n) {
 			case "err":
-				return fmt.Errorf("hook: %w", ErrScripted)
+				return scriptedErr(q.ErrKind, "hook")
 			case "panic":
 				panic("scripted hook panic")
 			case "long-err":
@@ -476,7 +496,7 @@ func (q *QProbe) Reconcile(ctx context.Context, _ *zap.Logger, r controller.QRun
 
 	switch o.Out {
 	case "err":
-		return fmt.Errorf("reconcile %s #%d: %w", k, n, ErrScripted)
+		return scriptedErr(q.ErrKind, fmt.Sprintf("reconcile %s #%d", k, n))
 	case "panic":
 		panic(fmt.Sprintf("scripted reconcile panic %s #%d", k, n))
 	case "requeue":
@@ -505,7 +525,7 @@ func (q *QProbe) MapInput(_ context.Context, _ *zap.Logger, _ controller.QRuntim
 
 	switch o.Out {
 	case "err":
-		return nil, fmt.Errorf("map #%d: %w", n, ErrScripted)
+		return nil, scriptedErr(q.ErrKind, fmt.Sprintf("map #%d", n))
 	case "panic":
 		panic("scripted map panic")
 	}
